@@ -43,7 +43,7 @@ META = {
 
 def _w(depth, split, xtype, attr, mods, same=False):
     return {"depth": depth, "fan": 1, "same": same, "wrap": 0, "nest": "lib", "split": split, "xtype": xtype, "xdims": 0,
-            "xpre": "", "ypre": "", "ieq": False, "attr": attr, "mods": mods, "clash": False, "shadow": False, "skew": False}
+            "xpre": "", "ypre": "", "ieq": False, "attr": attr, "mods": mods, "clash": False, "shadow": False, "skew": False, "twin": False}
 
 
 # programs on which the as-built configuration must violate an invariant: one per known deviation
@@ -126,7 +126,7 @@ def draw_pvs(rng, n):
                 for s in chosen]
         out.append({"depth": d, "fan": rng.choice([1, 2]), "same": rng.random() < 0.4, "wrap": rng.choice([0, 0, 1, 2]),
                     "nest": "lib", "split": split, "xtype": xt, "xdims": 0, "xpre": rng.choice(["", "", "parameter", "constant", "input"]),
-                    "ypre": "", "ieq": False, "attr": attr, "mods": mods, "clash": rng.random() < 0.2, "shadow": False, "skew": rng.random() < 0.25})
+                    "ypre": "", "ieq": False, "attr": attr, "mods": mods, "clash": rng.random() < 0.2, "shadow": False, "skew": rng.random() < 0.25, "twin": False})
     return out
 
 
@@ -134,6 +134,14 @@ def run(ctx):
     thorough = ctx.tier == "thorough"
     cover, stats = {}, {}
     cfg = "Instantiate_C08_thorough.cfg" if thorough else "Instantiate_C08_quick.cfg"
+
+    def witness(k):
+        return inst_run.run_file_family(ctx, "Instantiate_file_asbuilt.cfg", [ASBUILT_WITNESSES[k]],
+                                        "as-built switches on witness program %d: TLC is expected to report a violation" % k,
+                                        shards=1, expect_violation=True)[1]
+
+    side = ThreadPoolExecutor(len(ASBUILT_WITNESSES))      # the witness runs go on while the main family is enumerated
+    wfut = [side.submit(witness, k) for k in range(len(ASBUILT_WITNESSES))]
     progs, _ = inst_run.run_spec(ctx, cfg, "mods family, intended switches: operational = Effective(path, attr) in every accepted "
                                            "spelling, spelling invariance, arrival order")
     if not progs:
@@ -149,7 +157,7 @@ def run(ctx):
     need = ["spelling-mixed", "spelling-dotted", "spelling-nested", "depth1", "depth2", "xtype-aR", "xtype-aaR", "xpre-parameter",
             "attr-value", "attr-start", "attr-min", "attr-max", "attr-nominal", "attr-fixed", "attr-unit",
             "site-type0-lit", "site-decl1-lit", "site-decl1-ref", "site-ext1-lit", "site-ext1-ref", "site-comp2-lit",
-            "site-comp2-ref", "site-ext2-lit", "site-ext2-ref", "split1-chain2", "split2-chain2", "site-extb1-lit", "site-extb2-ref", "skew"]
+            "site-comp2-ref", "site-ext2-lit", "site-ext2-ref", "split1-chain2", "split2-chain2", "site-extb1-lit", "site-extb2-ref", "skew", "twin"]
     if thorough:
         need += ["depth3", "same", "site-comp3-ref", "site-ext3-lit"]
     missing = [t for t in need if not cover.get(t)]
@@ -161,14 +169,8 @@ def run(ctx):
         ctx.note_drift("no-nested-spelling-rejected-any-more")
     # the as-built configuration must make TLC itself report the property violation
     violated = {}
-
-    def witness(k):
-        return inst_run.run_file_family(ctx, "Instantiate_file_asbuilt.cfg", [ASBUILT_WITNESSES[k]],
-                                        "as-built switches on witness program %d: TLC is expected to report a violation" % k,
-                                        shards=1, expect_violation=True)[1]
-
-    with ThreadPoolExecutor(len(ASBUILT_WITNESSES)) as ex:
-        wres = list(ex.map(witness, range(len(ASBUILT_WITNESSES))))
+    wres = [f.result() for f in wfut]
+    side.shutdown()
     for k, ab_res in enumerate(wres):
         v = sorted({x for r in ab_res for x in r.violated})
         if not v:
